@@ -60,6 +60,7 @@ type Config struct {
 	AtomicPoints   bool // sync/atomic operations are scheduling points
 	NoPoison       bool // do not poison []byte handed to a Pool
 	NoStalls       bool // do not offer the "stall the default thread" alternative
+	SoloStalls     bool // while the driver waits in QuiesceKeep, a thread that is the only enabled one may be stalled too (the driver goes on)
 	UnlockPoints   bool // releasing a Mutex / RWMutex is followed by a scheduling point: the plain reads and writes a thread does right after leaving a critical section can then interleave with other threads
 	MapRaces       bool // vector clocks + map accesses reported by instrumented code: unsynchronised concurrent map access is reported as the fatal error it can become (see race.go)
 	UnlockedWrites bool // a struct-field write by a thread that holds no lock is a scheduling point (see SharedWrite)
@@ -109,27 +110,28 @@ type thread struct {
 }
 
 type sched struct {
-	cfg      Config
-	threads  []*thread
-	live     []*thread // threads that have not finished, in creation order
-	cur      *thread
-	points   []Point
-	finish   chan struct{}
-	finished bool
-	steps    int
-	aborted  bool
-	panics   []PanicInfo
-	closed   map[uintptr]bool
-	chans    map[uintptr]*objState
-	atoms    map[uintptr]*objState
-	maps     map[uintptr]*mapState
-	objids   map[uintptr]int
-	hb       uint64
-	th       uint64
-	err      string
-	log      []string
-	quiescer *thread
-	ndemoted int
+	cfg          Config
+	threads      []*thread
+	live         []*thread // threads that have not finished, in creation order
+	cur          *thread
+	points       []Point
+	finish       chan struct{}
+	finished     bool
+	steps        int
+	aborted      bool
+	panics       []PanicInfo
+	closed       map[uintptr]bool
+	chans        map[uintptr]*objState
+	atoms        map[uintptr]*objState
+	maps         map[uintptr]*mapState
+	objids       map[uintptr]int
+	hb           uint64
+	th           uint64
+	err          string
+	log          []string
+	quiescer     *thread
+	quiescerKeep bool // the driver is waiting in QuiesceKeep
+	ndemoted     int
 }
 
 // S is the active execution (nil = pass-through mode).
@@ -391,6 +393,30 @@ func (s *sched) schedule(me *thread) {
 		s.stop(me)
 		return
 	}
+	if q := s.quiescer; s.cfg.SoloStalls && !s.cfg.NoStalls && len(en) == 1 && en[0].demoted == 0 && q != nil && s.quiescerKeep && en[0] != q && !q.done && q.pred != nil {
+		// the only enabled thread, while the driver waits in QuiesceKeep: it may be slow (stalled) and
+		// the driver goes on with its next event
+		c := 0
+		i := len(s.points)
+		if i < len(s.cfg.Prefix) {
+			c = s.cfg.Prefix[i]
+			if c < 0 || c >= 2 {
+				s.fatal(fmt.Sprintf("replay divergence at point %d: solo-stall choice %d of 2", i, c))
+				return
+			}
+		}
+		s.points = append(s.points, Point{Kind: KSched, N: 2, Choice: c, Running: curEnabled})
+		if c == 1 {
+			s.ndemoted++
+			en[0].demoted = s.ndemoted
+			if s.cfg.Trace {
+				s.log = append(s.log, fmt.Sprintf("        T%d(%s) is stalled (it was the only enabled thread)", en[0].id, en[0].name))
+			}
+			if q.pred() {
+				en = []*thread{q}
+			}
+		}
+	}
 	choice := 0
 	if len(en) > 1 {
 		n := len(en)
@@ -614,6 +640,7 @@ func Quiesce() {
 		s.fatal("vsync.Quiesce used by two threads")
 	}
 	s.quiescer = me
+	s.quiescerKeep = false
 	for _, t := range s.live {
 		t.demoted = 0
 	}
@@ -637,6 +664,7 @@ func QuiesceKeep() {
 	s := S
 	me := s.cur
 	s.quiescer = me
+	s.quiescerKeep = true
 	s.point("quiesce(keep)", nil, func() bool {
 		for _, t := range s.live {
 			if t != me && !t.done && t.demoted == 0 && (t.pred == nil || t.pred()) {
